@@ -24,6 +24,7 @@ TOK = [
     (r"\bsize\(\)", "size"),
     (r"\blength_\b", "size"),
     (r"\bn\b", "n"),
+    (r"\bnew_dim\b", "n"),
     (r"\d+", None),
     (r"[()*+\-]", None),
     (r"\s+", ""),
@@ -82,6 +83,122 @@ def sites():
     return res
 
 
+# ---------------------------------------------------------------------------------------------------------------
+# Census of RECORDING CALLS: every place in include/adept/*.h (outside the buffer class itself) that makes the stack push
+# operations — a call of Expression::next_value_and_gradient* / scalar_value_and_gradient (which push E::n_active
+# operations), Stack::push_rhs / push_rhs_indices, or Stack::push_derivative_dependence (which reserves for itself).  For
+# each call the enclosing function is located and the call is classified:
+#   reserved   a check_space / check_space_static call precedes it in the same function body,
+#   self       push_derivative_dependence (contains its own check_space(n): site Stack_2),
+#   leaf       the enclosing function is itself only ever called from inside a reserved statement: the calc_gradient_ /
+#              calc_left_ / calc_right_ / push_rhs members of expression nodes and engines (their pushes are the
+#              E::n_active operations the statement reserved), the forwarding members of Expression.h, and the
+#              accumulate_active members of the reduction functors (reduce_active / reduce_dimension reserve for them),
+#   UNRESERVED anything else — a recording site that pushes without any reservation (finding F-69 was one).
+# The table is emitted as `recordingCalls`; `C09_every_recording_call_reserved` proves (by `decide` over the WHOLE
+# regenerated table) that no entry is UNRESERVED.
+REC_CALL = re.compile(r"\b(next_value_and_gradient(?:_contiguous|_special2|_special)?|scalar_value_and_gradient|"
+                      r"push_rhs_indices|push_rhs|push_derivative_dependence)\s*(?:<[^;(){}]*>)?\s*\(")
+LEAF_FUNCS = {"calc_gradient", "calc_gradient_", "calc_gradient_packet_", "calc_left_", "calc_right_", "calc_left", "calc_right", "push_rhs",
+              "accumulate_active", "next_value_and_gradient", "next_value_and_gradient_contiguous",
+              "next_value_and_gradient_special", "next_value_and_gradient_special2", "scalar_value_and_gradient",
+              "push_derivative_dependence", "my_calc_gradient_"}
+CTRL = {"for", "if", "while", "switch", "else", "do", "catch", "try"}
+
+
+def strip_comments(txt):
+    txt = re.sub(r"/\*.*?\*/", lambda m: re.sub(r"[^\n]", " ", m.group(0)), txt, flags=re.S)
+    return re.sub(r"//[^\n]*", lambda m: " " * len(m.group(0)), txt)
+
+
+def function_blocks(txt):
+    """(open, close, name) of every brace block that is a function body"""
+    out, stack = [], []
+    for i, ch in enumerate(txt):
+        if ch == "{":
+            # text between the previous ; { } and this brace
+            j = i - 1
+            depth = 0
+            while j >= 0:
+                c = txt[j]
+                if c == ")":
+                    depth += 1
+                elif c == "(":
+                    depth -= 1
+                elif depth == 0 and c in ";{}":
+                    break
+                j -= 1
+            head = txt[j + 1:i]
+            name = None
+            hs = head.strip()
+            # a function header ends with ')' (+ const / noexcept / initialiser list) and does not start with a control keyword
+            m = re.match(r"(?s)(.*?)\)\s*(?:const\b)?\s*(?:noexcept\b)?\s*(?::[^{};]*)?$", hs)
+            first = re.match(r"\s*(\w+)", hs)
+            if m and hs and not (first and first.group(1) in CTRL) and not hs.startswith("#"):
+                # name = identifier before the parameter list's opening parenthesis
+                k, d = len(m.group(1)), 0
+                t = m.group(1) + ")"
+                k = len(t) - 1
+                while k >= 0:
+                    if t[k] == ")":
+                        d += 1
+                    elif t[k] == "(":
+                        d -= 1
+                        if d == 0:
+                            break
+                    k -= 1
+                mm = re.search(r"([A-Za-z_]\w*(?:\s*<[^()]*>)?|operator\s*\S+?)\s*$", t[:k])
+                if mm and mm.group(1).split("<")[0].strip() not in CTRL:
+                    name = re.sub(r"\s+", "", mm.group(1).split("<")[0]) if not mm.group(1).startswith("operator") else re.sub(r"\s+", "", mm.group(1))
+            stack.append((i, name))
+        elif ch == "}":
+            if stack:
+                o, name = stack.pop()
+                if name:
+                    out.append((o, i, name))
+    return out
+
+
+def recording_calls():
+    res = []
+    for f in sorted(glob.glob(os.path.join(REPO, "include", "adept", "*.h"))):
+        base = os.path.basename(f)
+        if base.startswith("StackStorage"):
+            continue
+        txt = strip_comments(open(f).read())
+        blocks = function_blocks(txt)
+        for m in REC_CALL.finditer(txt):
+            # skip definitions / declarations: after the balanced argument list comes `{`, `const {` or the call is preceded by a type
+            try:
+                j = balanced(txt, m.end() - 1)
+            except ValueError:
+                continue
+            after = txt[j + 1:j + 40].lstrip()
+            if after.startswith("{") or re.match(r"const\s*\{", after) or re.match(r"const\s*;", after):
+                continue
+            before = txt[max(0, m.start() - 60):m.start()]
+            if re.search(r"(\bvoid|\bType|\bT|>|\busing\s+[\w:<>, ]+::)\s*$", before) and not re.search(r"(\.|->|::template\s|template\s)\s*$", before):
+                if not re.search(r"[=(,]\s*$", before):
+                    continue
+            enc = [b for b in blocks if b[0] < m.start() < b[1]]
+            if not enc:
+                continue
+            o, c, fname = max(enc, key=lambda b: b[0])
+            line = txt.count("\n", 0, m.start()) + 1
+            body_before = txt[o:m.start()]
+            callee = m.group(1)
+            if callee == "push_derivative_dependence":
+                kind = "self"
+            elif re.search(r"check_space(_static)?\s*(<|\()", body_before):
+                kind = "reserved"
+            elif fname in LEAF_FUNCS:
+                kind = "leaf"
+            else:
+                kind = "UNRESERVED"
+            res.append((base, fname, callee, line, kind))
+    return res
+
+
 def main():
     try:
         ss = sites()
@@ -99,13 +216,25 @@ def main():
     lines.append(",\n".join('  ("%s", "%s", "%s")' % (n, b, a.replace('"', "'")) for n, b, a, _ in ss))
     lines.append("]")
     lines.append("")
+    rc = recording_calls()
+    lines.append("/-- census of recording calls: (file, enclosing function, callee, classification); see translate/reserve.py -/")
+    lines.append("inductive RecKind | reserved | self | leaf | unreserved deriving DecidableEq, Repr")
+    lines.append("def recordingCalls : List (String × String × String × RecKind) := [")
+    lines.append(",\n".join('  ("%s", "%s", "%s", .%s)' % (b, fn, cal, kind.lower()) for b, fn, cal, ln, kind in rc))
+    lines.append("]")
+    lines.append("")
     lines.append("end Adept.RecBuf.Sites")
     os.makedirs(os.path.dirname(OUT), exist_ok=True)
     new = "\n".join(lines) + "\n"
     old = open(OUT).read() if os.path.exists(OUT) else None
     if old != new:
         open(OUT, "w").write(new)
-    print("reserve sites: %d%s" % (len(ss), "" if old == new else " (regenerated, changed)"))
+    print("reserve sites: %d, recording calls: %d (%s)%s" % (len(ss), len(rc), ", ".join(
+        "%s %d" % (k, sum(1 for x in rc if x[4] == k)) for k in ("reserved", "self", "leaf", "UNRESERVED")),
+        "" if old == new else " (regenerated, changed)"))
+    for b, fn, cal, ln, kind in rc:
+        if kind == "UNRESERVED":
+            print("  UNRESERVED recording call: %s:%d %s() calls %s" % (b, ln, fn, cal))
     return 0
 
 
